@@ -169,7 +169,8 @@ impl<'a> DataInput for SliceDataInput<'a> {
     }
 
     fn skip(&mut self, n: usize) -> Result<()> {
-        if self.position + n > self.data.len() {
+        // `n` usually comes from a length field in the stream: compare without adding (position + n can overflow)
+        if n > self.data.len() - self.position {
             return Err(ZiporaError::io_error("Cannot skip past end of data"));
         }
         self.position += n;
@@ -393,7 +394,8 @@ impl DataInput for MmapDataInput {
     }
 
     fn skip(&mut self, n: usize) -> Result<()> {
-        if self.position + n > self.mmap.len() {
+        // `n` usually comes from a length field in the stream: compare without adding (position + n can overflow)
+        if n > self.mmap.len() - self.position {
             return Err(ZiporaError::io_error("Cannot skip past end of data"));
         }
         self.position += n;
